@@ -468,6 +468,76 @@ func (st *vxState) combo(c *vxCase) {
 	}
 }
 
+// comboBad: the configuration of combo() plus ONE entry that names a non-existing device (unknown platform, or a
+// sensor index the chip does not have), placed first or last among the entries of its kind. Start-up must fail with an
+// error naming that entry, whatever comes before or after it (added after a seeded change showed that a "found" flag
+// carried over from a previous entry lets a bad entry slip through).
+func (st *vxState) comboBad(c *vxCase) {
+	type bad struct {
+		kind string // sensor-unknown | sensor-index | fan-unknown
+		pos  string // first | last
+	}
+	for _, b := range []bad{{"sensor-unknown", "last"}, {"sensor-unknown", "first"}, {"sensor-index", "last"}, {"fan-unknown", "last"}, {"fan-unknown", "first"}} {
+		gosensors.VerifSetSpec(vxSpecs(c))
+		cfg := configuration.Configuration{}
+		nGoodSensors, nGoodFans := 0, 0
+		firstSensorChip := -1
+		for i, s := range c.Shapes {
+			if len(s.Fans) > 0 {
+				fl := append([]int{}, s.Fans...)
+				sort.Ints(fl)
+				cfg.Fans = append(cfg.Fans, configuration.FanConfig{ID: fmt.Sprintf("vxfan_c%d", i), Curve: "curve", HwMon: &configuration.HwMonFanConfig{Platform: vxChipDefs[i].Full, RpmChannel: fl[0]}})
+				nGoodFans++
+			}
+			if in := s.inputs(); len(in) > 0 {
+				cfg.Sensors = append(cfg.Sensors, configuration.SensorConfig{ID: fmt.Sprintf("vxsens_c%d", i), HwMon: &configuration.HwMonSensorConfig{Platform: vxChipDefs[i].Full, Index: 1}})
+				nGoodSensors++
+				if firstSensorChip < 0 {
+					firstSensorChip = i
+				}
+			}
+		}
+		badID := "vxbad_entry"
+		switch b.kind {
+		case "sensor-unknown", "sensor-index":
+			if nGoodSensors == 0 || (b.kind == "sensor-index" && firstSensorChip < 0) {
+				continue
+			}
+			e := configuration.SensorConfig{ID: badID, HwMon: &configuration.HwMonSensorConfig{Platform: vxPattern("unknown"), Index: 1}}
+			if b.kind == "sensor-index" {
+				e.HwMon = &configuration.HwMonSensorConfig{Platform: vxChipDefs[firstSensorChip].Full, Index: 4}
+			}
+			if b.pos == "first" {
+				cfg.Sensors = append([]configuration.SensorConfig{e}, cfg.Sensors...)
+			} else {
+				cfg.Sensors = append(cfg.Sensors, e)
+			}
+		case "fan-unknown":
+			if nGoodFans == 0 {
+				continue
+			}
+			e := configuration.FanConfig{ID: badID, Curve: "curve", HwMon: &configuration.HwMonFanConfig{Platform: vxPattern("unknown"), RpmChannel: 1}}
+			if b.pos == "first" {
+				cfg.Fans = append([]configuration.FanConfig{e}, cfg.Fans...)
+			} else {
+				cfg.Fans = append(cfg.Fans, e)
+			}
+		}
+		configuration.CurrentConfig = cfg
+		_, err, pmsg := vxInit()
+		st.rep.Evaluations++
+		cls := b.kind + " entry " + b.pos
+		switch {
+		case pmsg != "":
+			st.violate(c, "C17 InitializeObjects panics (several entries, "+cls+")", "InitializeObjects panicked: "+pmsg)
+		case err == nil:
+			st.violate(c, "C17 non-existing device silently accepted among other entries ("+cls+")", "start-up succeeded although entry "+badID+" names a non-existing device")
+		case !strings.Contains(err.Error(), badID):
+			st.violate(c, "C17 start-up error does not name the entry ("+cls+")", "error: "+err.Error())
+		}
+	}
+}
+
 // ---------------------------------------------------------------- `fan2go sensor -i <id>` lookup (cmd/sensor/sensor.go getSensor)
 
 // cliSensor takes the sensor entry through a YAML file and the real getSensor (the lookup behind `fan2go sensor`),
@@ -658,6 +728,7 @@ func TestVX_C17(t *testing.T) {
 		rep.Evaluations++
 		if rc.Sel.Kind == "combo" {
 			st.combo(&rc)
+			st.comboBad(&rc)
 		} else if rc.Sel.Kind == "cli-sensor" {
 			rc.Sel.Kind = "sensor"
 			st.cliSensor(&rc, vxRefBind(rc.Shapes, rc.Sel))
@@ -715,6 +786,7 @@ func TestVX_C17(t *testing.T) {
 		for _, order := range ps {
 			c := vxCase{Shapes: shapes, Order: order, Sel: vxSel{Kind: "combo", Pattern: "full"}}
 			st.combo(&c)
+			st.comboBad(&c)
 			rep.Evaluations++
 			nontrivial++
 		}
